@@ -164,6 +164,34 @@ func checkRecursionBounded(p *Prog, r *Result, pkg *packages.Package, rule strin
 			unbounded = append(unbounded, "{"+strings.Join(show, ", ")+"}")
 		}
 	}
+	// The lexer is a different matter: tokens do not nest, so a function of lexer.go that calls itself does so once per
+	// repetition in the input (next() used to, once per comment line), and millions of repetitions are ordinary input.
+	nLex := 0
+	for _, fo := range fos {
+		fd := fgs.decls[fo]
+		if !strings.HasSuffix(p.Fset.Position(fd.Pos()).Filename, "/lexer.go") {
+			continue
+		}
+		nLex++
+		var at token.Pos
+		ast.Inspect(fd.Body, func(n ast.Node) bool {
+			if c, ok := n.(*ast.CallExpr); ok && at == token.NoPos {
+				if callee := calleeOf(info, c); callee != nil && callee.Origin() == fo {
+					at = c.Pos()
+				}
+			}
+			return true
+		})
+		pos := fd.Pos()
+		if at != token.NoPos {
+			pos = at
+		}
+		r.Check(at == token.NoPos, rule, funcObjKey(fo)+"#a lexer function does not call itself", pos, "no direct self-call: repetition in the input is read in a loop",
+			"a function of the lexer calls itself: tokens do not nest, so this recursion is one frame per repetition in the input (per comment line, per run of blanks …), and an input with a few million of them in a row ends the process with a fatal stack overflow")
+	}
+	if nLex < 15 {
+		r.Undecided(rule, "syntax/lexer.go#lexer functions", token.NoPos, fmt.Sprintf("only %d methods of Parser found in lexer.go", nLex))
+	}
 	sort.Strings(unbounded)
 	key := "syntax.(Parser)#recursive descent is bounded by a depth limit"
 	r.Check(len(unbounded) == 0, rule, key, token.NoPos, fmt.Sprintf("each of the %d recursion cycles among the parser's methods compares a depth counter with a limit", total),
